@@ -39,6 +39,11 @@ class Sym:
             if idx is not None and idx < len(ds[0][2]['ops']):
                 base = self.op(ds[0][2]['ops'][idx], depth + 1)
                 return base + ''.join(proj[1:])
+        # closure environment: _1.k is the k-th captured variable
+        if l == 1 and proj and self.fn.is_closure() and proj[0].startswith('.') and proj[0][1:].isdigit():
+            nm = self.fn.upvars.get(int(proj[0][1:]))
+            if nm:
+                return nm + ''.join(proj[1:])
         return self.local(l, depth) + ''.join(proj)
 
     def local(self, l, depth=0):
